@@ -23,7 +23,7 @@ RULE = ('seeded scenarios with 1-4 inclusive/exclusive conditions x seeded histo
         'conditions removed, and (2) the scanner generated from the same rules written inside nested start-condition scopes')
 TIERS = {
     'quick': {'scenarios': 40, 'plans': 100, 'wall_cap': 600},
-    'thorough': {'scenarios': 1000, 'plans': 250, 'wall_cap': 3300},
+    'thorough': {'scenarios': 4000, 'plans': 250, 'wall_cap': 3300},
 }
 COMPONENTS = sb.COMPONENTS
 ASSUMPTIONS = ['a pop of an empty stack must call the fatal-error hook with the underflow message; any other fatal error in this workload is reported']
